@@ -963,3 +963,58 @@ brk("B07i", "resolve_fragment: failed lookup returns None instead of raising",
                     "Unresolvable JSON pointer: %r" % fragment
                 )''', '''            except (TypeError, LookupError):
                 return None''')], {"C14": "R14.4|"})
+
+
+# --------------------------------------------------------------------------- C08
+brk("B22", "uniq: drop unbool in the sort path",
+    [(U, "            sort = sorted(unbool(i) for i in container)", "            sort = sorted(container)")], {"C08": "R8.1|"})
+
+brk("B23", "enum: raw `in` (pre-fix shape)",
+    [(KV, '''    if all(not equal(instance, each) for each in enums):
+        yield ValidationError("%r is not one of %r" % (instance, enums))''', '''    if instance not in enums:
+        yield ValidationError("%r is not one of %r" % (instance, enums))''')], {"C08": "R8.1|"})
+
+brk("B23b", "enum: 0/1 special case next to a raw in (the pinned shape)",
+    [(KV, '''    if all(not equal(instance, each) for each in enums):
+        yield ValidationError("%r is not one of %r" % (instance, enums))''', '''    if instance == 0 or instance == 1:
+        if all(not equal(instance, each) for each in enums):
+            yield ValidationError("%r is not one of %r" % (instance, enums))
+    elif instance not in enums:
+        yield ValidationError("%r is not one of %r" % (instance, enums))''')], {"C08": "R8.1|"})
+
+brk("B24", "unbool: map True to 1",
+    [(U, "def unbool(element, true=object(), false=object()):", "def unbool(element, true=1, false=object()):")], {"C08": "R8.2|"})
+
+brk("B24b", "unbool: shallow again (no list case)",
+    [(U, '''    elif isinstance(element, list):
+        return [unbool(each, true, false) for each in element]
+''', '')], {"C08": "R8.3|"})
+
+brk("B24c", "unbool: dict values left alone",
+    [(U, "        return {k: unbool(v, true, false) for k, v in element.items()}", "        return dict(element)")], {"C08": "R8.3|"})
+
+brk("B24d", "uniq brute-force path compares raw elements",
+    [(U, '''            for e in container:
+                e = unbool(e)
+                if e in seen:''', '''            for e in container:
+                if e in seen:''')], {"C08": "R8.1|"})
+
+brk("B24e", "const: plain == instead of equal()",
+    [(KV, "    if not equal(instance, const):", "    if instance != const:")], {"C08": "R8."})
+
+brk("B24f", "unbool tests equality instead of identity",
+    [(U, "    if element is True:\n        return true", "    if element == True:\n        return true")], {"C08": "R8.2|"})
+
+keep("P31", "uniq: brute-force path with a differently named local",
+     [(U, '''            for e in container:
+                e = unbool(e)
+                if e in seen:
+                    return False
+                seen.append(e)''', '''            for raw in container:
+                normal = unbool(raw)
+                if normal in seen:
+                    return False
+                seen.append(normal)''')])
+
+keep("P32", "equal: temporaries",
+     [(U, "    return unbool(one) == unbool(two)", "    left = unbool(one)\n    right = unbool(two)\n    return left == right")])
